@@ -318,7 +318,7 @@ def gen_cases(run):
     envs = [None, 'max_split_size_mb:64', 'expandable_segments:True']
     splits = ['top_vector_agop_on_subset', 'random_agop_on_subset', 'top_pc_agop_on_subset', 'random_pca', 'pca', 'linear',
               'rf_criterion', 'fixed_vector', 'random']
-    n_main = 48 if run.tier == 'quick' else 320
+    n_main = 48 if run.tier == 'quick' else 800
     for k in range(n_main):
         task = tasks[k % 4]
         kernel = kernels[k % len(kernels)] if k < 2 * len(kernels) else r.choice(kernels)
@@ -340,7 +340,7 @@ def gen_cases(run):
             bandwidth_mode='adaptive' if (k % 5 == 2 and kernel != 'sum_power_laplace') else 'constant',
             y_1d=(k % 2 == 0), refill_size=r.choice([1500, 12])))
     # calls whose body raises (outside the property: observation + model comparison)
-    n_raise = 8 if run.tier == 'quick' else 32
+    n_raise = 8 if run.tier == 'quick' else 64
     for k in range(n_raise):
         plan = ['predict-before-fit', 'wrong-shape', 'fit-raises', 'wrong-shape'][k % 4]
         task = ['reg1', 'bin'][k % 2]
@@ -364,7 +364,10 @@ def check(run):
                        'only PYTORCH_CUDA_ALLOC_CONF is claimed; other variables (TORCHINDUCTOR_CACHE_DIR ...) may be set by torch',
                        'CPU only; Kermac (GPU) kernel classes, eigenpro.py and kernel_log_reg.py are outside the in-place inventory']
     run.trusted.append('extract/gen_inplace.py (intraprocedural alias pass: its rules are documented in the file)')
+    import time
+    t0 = time.time()
     run.lean()
+    run.extra['lean_s'] = round(time.time() - t0, 1)   # includes waiting for the shared build lock
     cases = gen_cases(run)
     if run.driver_ok:
         results = core.pmap(MOD, [{'cases': c} for c in core.chunks(cases, 16)])
